@@ -1310,7 +1310,33 @@ namespace vw
                         nb.resize(static_cast<std::size_t>(h.c));
                         grid.neighbors(idx, nb);
                     }
-                    if (ind.size() != cnt || nb.size() != cnt || dists.size() != cnt)
+                    {
+                        // results held by the caller must survive a later query of another node
+                        std::vector<std::size_t> ind_copy(ind.begin(), ind.end());
+                        std::vector<uint64_t> dist_copy;
+                        for (auto v : dists)
+                            dist_copy.push_back(dbits(v));
+                        typename G::neighbors_type nb_copy = nb;
+                        const std::size_t other = (idx + 1 + static_cast<std::size_t>(h.c)) % n;
+                        auto other_ind = grid.neighbors_indices(other);
+                        auto other_nb = grid.neighbors(other);
+                        auto other_d = grid.neighbors_distances(other);
+                        (void) other_ind;
+                        (void) other_nb;
+                        (void) other_d;
+                        bool same = ind_copy.size() == ind.size() && dist_copy.size() == dists.size() && nb_copy.size() == nb.size();
+                        for (std::size_t k = 0; same && k < ind_copy.size(); ++k)
+                            same = ind_copy[k] == ind[k];
+                        for (std::size_t k = 0; same && k < dist_copy.size(); ++k)
+                            same = dist_copy[k] == dbits(dists[k]);
+                        for (std::size_t k = 0; same && k < nb_copy.size(); ++k)
+                            same = nb_copy[k] == nb[k];
+                        if (!same)
+                            bad = "a result held by the caller changed when another node was queried";
+                    }
+                    if (!bad.empty())
+                        ;
+                    else if (ind.size() != cnt || nb.size() != cnt || dists.size() != cnt)
                         bad = "accessors disagree on the number of neighbours";
                     for (std::size_t k = 0; k < cnt && bad.empty(); ++k)
                     {
